@@ -38,3 +38,25 @@ Inductive anycase :=
 
 Definition run_show_any (c : anycase) : string :=
   match c with CSession x => run_show x | CProto x => run_show_proto x end.
+
+(** two requests on one connection *)
+Definition show_x (s : xstate) : string :=
+  String.concat "," (map show_xfire (request_fired s)) ++ "|" ++ show_hex (m_delivered (x_in s)) ++ "|"
+  ++ String.concat "," (map show_reason (m_closed (x_in s))).
+
+Definition run_show_two (c : bytes * list bytes * dtime * trigger * bytes * bool * list op) : string :=
+  let '(m1, cs1, t1, tr, m2, tx2, ops2) := c in
+  let '(s1, o2) := two_requests (eqb_bytes m1 HEAD) cs1 t1 tr (eqb_bytes m2 HEAD) tx2 ops2 in
+  show_x s1 ++ "#" ++
+  match o2 with
+  | NotIssued => "unissued"
+  | NotSent => "X"
+  | Ran s2 => show_x s2
+  end.
+
+Inductive anycase2 :=
+| C1 (c : anycase)
+| CTwo (c : bytes * list bytes * dtime * trigger * bytes * bool * list op).
+
+Definition run_show_all (c : anycase2) : string :=
+  match c with C1 x => run_show_any x | CTwo x => run_show_two x end.
